@@ -148,17 +148,15 @@ package object
 //@   ensures @C02 @C16 reset.hash: h.offset == 0
 //@   panics never
 
-// The FNV-1a hash of the printed form is computed by hash/fnv, which is outside the module: the
-// value of the key is trusted to be that function of the string (the key's Type is proved).
+// The FNV-1a hash of the printed form is computed by hash/fnv, which is outside the module: that
+// New64a().Write(b).Sum64() is a function (fnvStr) of the bytes written is the trusted part.
 //@ func (s *String) HashKey() (result HashKey)
 //@   modifies nothing
 //@   ensures @C16 hashkey.string: result.Type == STRING && result.Value == fnvStr(s.Value)
-//@   trusted hash/fnv: New64a().Write(b).Sum64() is a function of b
 //@   panics never
 //@ func (f *Float) HashKey() (result HashKey)
 //@   modifies nothing
 //@   ensures @C16 hashkey.float: result.Type == FLOAT && result.Value == fnvStr(fmtFloat(f.Value))
-//@   trusted hash/fnv: New64a().Write(b).Sum64() is a function of b
 //@   panics never
 //@ func (f *Float) Inspect() (result string)
 //@   modifies nothing
